@@ -637,6 +637,40 @@ pub fn c02(tier: &str, seed: u64) {
     case(true);
     stat("oracle.boundary_thresholds");
   }
+  // ADSS tolerates reused coins: sharings of DIFFERENT messages under the same threshold and the same
+  // coins R (adss::Commune directly; sta-rs never does this) still have unrelated polynomials - a
+  // shared non-constant coefficient lets one share of A plus a recovered B give A's key
+  for round in 0..(if quick(tier) { 6 } else { 60 }) {
+    let t = *g.pick(&[2u32, 3, 5]);
+    let coins = if round % 2 == 0 { vec![0x5a; 32] } else { g.blob(32) };
+    let msgs: Vec<Vec<u8>> = vec![vec![0x11; 32], vec![0x22; 32], { let mut v = vec![0x11; 32]; v[31] ^= 1; v }, g.blob(5)];
+    let mut seen: std::collections::BTreeMap<Vec<u8>, usize> = Default::default();
+    for (mi, msg) in msgs.iter().enumerate() {
+      let c = Commune::new(t, msg.clone(), coins.clone(), None);
+      let pts: Vec<(BigUint, BigUint)> = (0..t)
+        .map(|_| {
+          let b = c.clone().share().expect("share").to_bytes();
+          (BigUint::from_bytes_le(&b[8..32]), BigUint::from_bytes_le(&b[32..56]))
+        })
+        .collect();
+      if pts.iter().map(|x| x.0.clone()).collect::<std::collections::BTreeSet<_>>().len() != pts.len() {
+        continue;
+      }
+      let co = interpolate_coeffs(&pts, &p);
+      for cf in &co[1..] {
+        if let Some(prev) = seen.insert(cf.to_bytes_le(), mi) {
+          if prev != mi {
+            fail(
+              "coefficient_shared_between_measurements",
+              &[("layer", "adss::Commune, same threshold and coins, different messages".into()), ("threshold", t.to_string()), ("coins", hex(&coins)), ("message_1", hex(&msgs[prev])), ("message_2", hex(msg)), ("coefficient", cf.to_str_radix(16))],
+            );
+          }
+        }
+      }
+    }
+    case(true);
+    stat("oracle.C02.reused_coins_sharings");
+  }
   // the sharing layer under a random source the CALLER supplies (Evaluator::gen is public API): a
   // single share must not hold the secret, however unlucky the draws - here 1..8 consecutive draws
   // of the zero element (a share at x = 0 is the secret itself)
@@ -687,7 +721,7 @@ pub fn c03(tier: &str, seed: u64) {
     let m = { let n = g.range(1, 40) as usize; g.blob(n) };
     let e = g.blob(2);
     // sequences of 2..4 clients with differing associated data of equal length
-    let alen = *g.pick(&[1usize, 2, 8, 16, 100, 150, 166, 167, 300, 400]);
+    let alen = *g.pick(&[1usize, 2, 8, 16, 100, 150, 166, 167, 300, 400, 520, 700, 1100, 1400]);
     let cnt = g.range(2, 4) as usize;
     let clients: Vec<Client> = (0..cnt)
       .map(|_| {
@@ -719,7 +753,20 @@ pub fn c03(tier: &str, seed: u64) {
           fail("keystream_reuse", &d);
         }
         // beyond the first block the relation must not hold when the first blocks differ
-        if ca.len() > 166 + 8 && pa[..166] != pb[..166] && xor(&ca[166..], &cb[166..]) == xor(&pa[166..], &pb[166..]) {
+        // ... nor on ANY later stretch: every 8-byte window from byte 166 on (a cipher that restarts
+        // its keystream at some later offset shows there, not necessarily at a block boundary)
+        let mut leak_at: Option<usize> = None;
+        if ca.len() > 166 + 8 && pa[..166] != pb[..166] {
+          for w in 166..ca.len() - 8 {
+            if pa[w..w + 8] != pb[w..w + 8] && xor(&ca[w..w + 8], &cb[w..w + 8]) == xor(&pa[w..w + 8], &pb[w..w + 8]) {
+              leak_at = Some(w);
+              break;
+            }
+          }
+        }
+        if let Some(w) = leak_at {
+          let mut d = d.clone();
+          d.push(("xor_equal_on_window_at", w.to_string()));
           fail("keystream_reuse_beyond_first_block", &d);
         }
         case(true);
